@@ -499,7 +499,23 @@ func (v *UnixVolume) Untrash(loc string) (err error) {
 	for _, f := range files {
 		if strings.HasPrefix(f.Name(), prefix) {
 			foundTrash = true
-			err = v.os.Rename(v.blockPath(f.Name()), v.blockPath(loc))
+			trashpath := v.blockPath(f.Name())
+			// Update the timestamp before moving the file
+			// back into place. Otherwise, if a newer copy
+			// of the block already exists, the rename
+			// would replace it with a copy carrying the
+			// old timestamp, and a block that was written
+			// or touched a moment ago could be trashed
+			// again right away.
+			now := time.Now()
+			v.os.stats.TickOps("utimes")
+			v.os.stats.Tick(&v.os.stats.UtimesOps)
+			err = os.Chtimes(trashpath, now, now)
+			v.os.stats.TickErr(err)
+			if err != nil {
+				continue
+			}
+			err = v.os.Rename(trashpath, v.blockPath(loc))
 			if err == nil {
 				break
 			}
